@@ -217,7 +217,29 @@ func runProperty(id string, def propDef, repo, verif, tier string, seed int64, n
 			fr = append(fr, r)
 		}
 		sort.Strings(fr)
+		worldClean := true
+		for _, o := range all {
+			if !o.OK {
+				worldClean = false
+			}
+		}
 		for _, r := range fr {
+			if !worldClean && len(run.Obls) > 0 {
+				// Instance floors guard against a rule that silently matches nothing on a
+				// tree the analyser otherwise understands. When some construct of the tree
+				// is already reported (by this or by another property's rule) the counts of
+				// dependent rules legitimately drop; the owning rule carries the alarm.
+				allOK := true
+				for _, o := range run.Obls {
+					if !o.OK {
+						allOK = false
+					}
+				}
+				if allOK {
+					run.Notes = append(run.Notes, "instance floors not asserted: another rule group reported an unrecognised or violating construct, dependent instance counts may legitimately differ")
+					break
+				}
+			}
 			if premiseFailed && !ownsPremise {
 				run.Notes = append(run.Notes, "instance floors not asserted: the layout premise failed, dependent rules were not decided")
 				break
